@@ -45,6 +45,11 @@ CHECKS = {
             "For 8 (quick) / 12 (thorough) pipeline shapes every job of the fault-free run is made to fail in each of 12 metadata-level manifestations (error/assert files, process vanishing, non-zero exit, truncated/missing/ill-typed/extra-key _outs, bad _stage_defs) at enforcement levels disable and error, under the default schedule and with the failing job slowest; oracle: failed (never success or hang) where the manifestation is decided to be fatal, the reported fqname lies in the failing stage, no dependent call started (reference dependency closure), independent jobs untouched, and a restart without the fault completes with the reference outputs without re-running completed jobs.",
             "process-level manifestations through the real mrjob/adapters and auto-retry are not exercised (model job writes what mrjob would); chunk-level type faults and extra keys are fatal only at --strict=error",
             "DESIGN.md 4/C06"),
+    "C08": ("exploration",
+            "bounded-exhaustive input enumeration on the real parser/compiler (token sequences, single edits of a corpus, slot substitutions, nesting series, include graphs), crash/hang/position oracle",
+            "Every token sequence of length <=3 (thorough 4) over a 90-token adversarial alphabet through ParseSourceBytes/UncheckedParse/ParseValExp/FormatSrcBytes; for each of the repository's ~60 .mro fixtures every single-token deletion/duplication, byte-prefix truncation, byte corruption and token replacement by each alphabet token; every string slot x 14 awkward strings and numeric slot x 25 edge literals; nesting/size series to 10^5 (10^6) and 13 include graphs in isolated subprocesses. Violation: panic, process death (stack overflow), no result within 60-180 s, or an error without a source position.",
+            "the space of all byte strings is approximated by these bounds; time limits are only a hang detector (no proportionality measurement below it)",
+            "DESIGN.md 4/C08"),
     "C17": ("exploration",
             "bounded-exhaustive (type, JSON value) enumeration with single-point near-miss mutations against a three-valued reference validator and reference filter",
             "120 types (14 base types incl. six structs x array depth 0-2 x typed-map nesting 0-2); for each a generated set of valid values and every single-point near-miss mutation (wrong kind at each node, 1.0/1.5, extra nesting, extra/missing field), in compact and oddly spaced raw JSON (about 6*10^4 distinct pairs in quick); checks: IsValidJson agrees with the reference wherever it is decided and accepts null; FilterJson is idempotent, equals the reference filter (drops undeclared fields, integral floats to ints) and its result validates; for every ordered type pair (S,D) with D assignable from S every valid S value filtered to D validates for D; assignability is reflexive and component-wise for arrays, typed maps and structs over all 120^2 pairs.",
